@@ -365,6 +365,8 @@ class Interp:
             return True
         if isinstance(v, VFloat):
             return v.conc != 0.0
+        if isinstance(v, VLib) and v.kind in ("Match", "UUID", "Path", "IntelHex", "Struct", "HashAlg", "PrivateKey", "PublicKey"):
+            return True
         raise OutOfSubset(f"truthiness of {v!r}")
 
     def test(self, v: V) -> bool:
@@ -1230,6 +1232,9 @@ def mk_key(k):
     """Turn a concrete dict key back into a V."""
     if isinstance(k, V):
         return k
+    from .values import SymKey
+    if isinstance(k, SymKey):
+        return k.v
     if isinstance(k, tuple):
         return VTuple([mk_key(i) for i in k])
     return mk(k)
